@@ -48,6 +48,7 @@ type Engine struct {
 	initPhase        bool
 	template         *State
 	concCap          int
+	divergeBound     int
 
 	tier    int
 	seed    int64
@@ -121,7 +122,7 @@ func (w *Worker) push(s *State) {
 }
 
 func loadEngine(repo string, ov map[string][]byte) (*Engine, error) {
-	e := &Engine{repoDir: repo, concCap: 300}
+	e := &Engine{repoDir: repo, concCap: 300, divergeBound: 20000}
 	cfg := &packages.Config{
 		Mode:    packages.LoadAllSyntax,
 		Dir:     repo,
